@@ -274,20 +274,22 @@ def impl_case(case):
         def f():
             ro = reward_objs()["sum"]()
             m = case["m"]
-            # a (T,S,K) tensor with K = 4 metrics: slice 0 carries the list, the others are constant
-            arr = np.zeros((len(m), 1, 4))
-            arr[:, 0, 0] = [float(x) for x in m]
-            arr[:, 0, 1] = 1.0
+            # a (T,S,K) tensor with K = 4 metrics and S = 2 sensors reporting the same numbers: slice 0 carries the list, the others are constant
+            arr = np.zeros((len(m), 2, 4))
+            arr[:, :, 0] = np.array([float(x) for x in m])[:, None]
+            arr[:, :, 1] = 1.0
             layout = case.get("layout", "c")
             if layout == "f":
                 arr = np.asfortranarray(arr)
             elif layout == "moveaxis":
                 arr = np.moveaxis(np.ascontiguousarray(np.moveaxis(arr, -1, 0)), 0, -1)
             elif layout == "slice":
-                big = np.zeros((len(m), 2, 4))
-                big[:, :1, :] = arr
-                arr = big[:, :1, :]
+                big = np.zeros((len(m), 3, 4))
+                big[:, :2, :] = arr
+                arr = big[:, :2, :]
             out = ro.normalizeMetrics(arr)
+            if not (np.array_equal(out[:, 0, :], out[:, 1, :])):
+                raise AssertionError("two sensors with the same metrics were normalised differently")
             return [float(x) for x in out[:, 0, 0]], [float(x) for x in out[:, 0, 1]]
 
         return guarded(f)
